@@ -73,9 +73,18 @@ impl CoordIndex {
             });
         });
 
-        index.max_matrix_index = index.direct_index.len().max(1) - 1;
+        // NOTE: with location indices, the matrix has to cover the largest index used, not just their amount
+        index.max_matrix_index = index
+            .direct_index
+            .keys()
+            .filter_map(|location| match location {
+                Location::Reference { index } => Some(*index),
+                _ => None,
+            })
+            .max()
+            .unwrap_or_else(|| index.direct_index.len().max(1) - 1);
 
-        let start_offset = index.direct_index.len() * index.direct_index.len();
+        let start_offset = (index.max_matrix_index + 1).pow(2);
         // NOTE promote custom locations to the index to use usize outside
         index.custom_locations.iter().enumerate().for_each(|(offset, location)| {
             debug_assert!(matches!(location, Location::Custom { .. }));
